@@ -616,6 +616,253 @@ def edits_and_save(ctx: Ctx, out: Outcome, spec: dict, mono, frag, lay_m, lay_f,
         out.find("after-edits|" + f.signature, f.what, case)
 
 
+# ------------------------------------------------------------------ moves across file boundaries, then more edits
+
+
+def _cuttable(e, root) -> bool:
+    return e is not root and bool(e.get("id")) and bool(e.get(XSI_T)) and e.getparent() is not None and e.get("href") is None
+
+
+def xmove_specs(ctx: Ctx, model: str, res: dict, n: int) -> list[dict]:
+    """layouts + histories in which an EXISTING element x is moved through the list API into a list whose owner q
+    lives in ANOTHER file (main -> fragment, fragment -> main, fragment -> fragment, into / out of a nested fragment),
+    and is then edited again (deleted, moved across a boundary once more, renamed and moved back, ...)."""
+    from lxml import etree
+
+    src = links.data_dir() / model
+    main, _ = fragmenter.find_main(src)
+    root = etree.parse(str(src.parent / main)).getroot()
+    els = {e.get("id"): e for e in root.iter() if isinstance(e.tag, str) and e.get("id")}
+    pairs = [(x, q) for x, q in move_candidates(els, set(), prefer_ancestors=False)
+             if sum(1 for _ in els[x].iter()) <= 40]
+    ctx.rng.shuffle(pairs)
+    # only pairs the list API can execute: x sits in a coupled child list of its parent that q's class has too
+    capellambse, _, _ = _imports()
+    probe = capellambse.MelodyModel(src, resources={k: links.data_dir() / v for k, v in res.items()})
+    pels = {e.get("id"): e for e in semantic_elements(probe)}
+    usable: dict[tuple[str, str], bool] = {}
+
+    def can_move(x, q):
+        try:
+            name = list_attr_holding(capellambse, probe.by_uuid(pels[x].getparent().get("id")), pels[x])
+            return name is not None and hasattr(type(probe.by_uuid(q)), name)
+        except Exception:  # noqa: BLE001
+            return False
+
+    out: list[dict] = []
+    used: set[str] = set()
+    modes = ["main->frag", "frag->main", "frag->frag", "into-nested", "out-of-nested"]
+    follow = ["delete", "move-back", "rename+move-back+delete", "move-on"]
+    k = 0
+    tried = 0
+    for x, q in pairs:
+        if tried > 40 * n:
+            break
+        tried += 1
+        if x not in pels or q not in pels or not usable.setdefault((x, q), can_move(x, q)):
+            continue
+        mode = modes[k % len(modes)]
+        ex, eq = els[x], els[q]
+        p = ex.getparent()
+        sub_x = {id(d) for d in ex.iter()}
+
+        def anc_cut(start, avoid):
+            """nearest cuttable ancestor-or-self of `start` whose subtree does not contain `avoid`"""
+            a = start
+            while a is not None and _cuttable(a, root):
+                if id(avoid) not in {id(d) for d in a.iter()}:
+                    return a
+                a = a.getparent()
+            return None
+
+        cuts = []
+        cq = anc_cut(eq, ex)  # q inside a fragment that does not hold x
+        cp = anc_cut(p, eq)   # x's parent inside a fragment that does not hold q
+        if mode == "main->frag" and cq is not None:
+            cuts = [cq]
+        elif mode == "frag->main" and cp is not None:
+            cuts = [cp]
+        elif mode == "frag->frag" and cq is not None and cp is not None and cq is not cp:
+            cuts = [cq, cp]
+        elif mode == "into-nested" and cq is not None:
+            outer = anc_cut(cq.getparent(), ex) if cq.getparent() is not None else None
+            cuts = [cq] + ([outer] if outer is not None else [])
+            if len(cuts) < 2:
+                continue
+        elif mode == "out-of-nested" and cp is not None:
+            outer = anc_cut(cp.getparent(), eq) if cp.getparent() is not None else None
+            cuts = [cp] + ([outer] if outer is not None else [])
+            if len(cuts) < 2:
+                continue
+        if not cuts or any(id(c) in sub_x for c in cuts):
+            continue
+        # a third same-typed parent in yet another place, for "move-on"
+        q3 = next((b for a, b in pairs if a == x and b != q), None)
+        used.clear()
+        out.append({"model": model, "resources": res, "cuts": [[c.get("id"), links.gen_frag_path(ctx.rng, used)] for c in cuts],
+                    "main_rel": None, "airdfragments": False, "raw_nonascii": False, "small": (model, res) in SMALL,
+                    "hints": {"xmove": {"x": x, "p": p.get("id"), "q": q, "q3": q3, "mode": mode, "then": follow[k % len(follow)]}}})
+        k += 1
+        if k >= n:
+            break
+    return out
+
+
+def raw_ids(mdl) -> dict[str, int]:
+    """raw scan of the loader's semantic trees of the main resource: id -> number of (non-placeholder) elements carrying it"""
+    cnt: dict[str, int] = {}
+    for fr, tree in mdl._loader.trees.items():
+        if fr.parts[0] != "\0" or posixpath.splitext(fr.parts[-1])[1] not in SEMANTIC:
+            continue
+        for e in tree.root.iter():
+            if isinstance(e.tag, str) and e.get("id") and e.get("href") is None:
+                cnt[e.get("id")] = cnt.get(e.get("id"), 0) + 1
+    return cnt
+
+
+def step_observation(mdl, universe: list[str], x: str) -> dict:
+    """what the API answers after one step of a history: look-up of every id ever seen (result class), the multiset of
+    search(), where x is, and the same read off the raw XML"""
+    import collections
+
+    d: dict = {}
+    raw = raw_ids(mdl)
+    by = {}
+    ghosts, lost = [], []
+    for i in universe:
+        try:
+            mdl.by_uuid(i)
+            r = "ok"
+        except Exception as e:  # noqa: BLE001
+            r = "!" + type(e).__name__
+        by[i] = r
+        if r == "ok" and raw.get(i, 0) == 0:
+            ghosts.append(i)
+        if r != "ok" and raw.get(i, 0) == 1:
+            lost.append(i)
+    d["by_uuid"] = by
+    d["ghosts"], d["lost"] = sorted(ghosts), sorted(lost)
+    try:
+        c = collections.Counter(o.uuid for o in mdl.search() if getattr(o, "uuid", None) in raw or getattr(o, "uuid", None) in by)
+        d["search"] = sorted(c.items())
+        d["search_dups"] = sorted(i for i, n in c.items() if n > 1)
+        d["search_ghosts"] = sorted(i for i in c if raw.get(i, 0) == 0 and i in by)
+    except Exception as e:  # noqa: BLE001
+        d["search"] = "!" + type(e).__name__
+        d["search_dups"], d["search_ghosts"] = [], []
+    try:
+        d["x.parent"] = canon(mdl.by_uuid(x).parent)
+    except Exception as e:  # noqa: BLE001
+        d["x.parent"] = "!" + type(e).__name__
+    return d
+
+
+def xmove_history(ctx: Ctx, out: Outcome, spec: dict, mono, frag, lay_m, lay_f, tag: str):
+    capellambse, helpers, core = _imports()
+    h = spec["hints"]["xmove"]
+    els = {e.get("id"): e for e in semantic_elements(mono)}
+    x, p, q, q3 = h["x"], h["p"], h["q"], h.get("q3")
+    if x not in els or q not in els or p not in els:
+        return
+    name = list_attr_holding(capellambse, mono.by_uuid(p), els[x])
+    if name is None or not hasattr(type(mono.by_uuid(q)), name):
+        out.hit("xmove.skipped-no-list")
+        return
+    mv = lambda to: {"op": "move", "id": x, "to": to, "attr": name}  # noqa: E731
+    then = h["then"]
+    script = [mv(q)]
+    if then == "delete":
+        script.append({"op": "delete", "id": x, "parent": q, "attr": name})
+    elif then == "move-back":
+        script.append(mv(p))
+    elif then == "rename+move-back+delete":
+        script += [{"op": "rename", "id": x, "name": "verif moved"}, mv(p), {"op": "delete", "id": x, "parent": p, "attr": name}]
+    elif then == "move-on":
+        script.append(mv(q3 if q3 and q3 in els and hasattr(type(mono.by_uuid(q3)), name) else p))
+        script.append({"op": "delete", "id": x, "parent": script[-1]["to"], "attr": name})
+    case = {"kind": "edits", "layout": spec, "script": script}
+    universe = sorted(els)
+    out.case(("xmove", tag, h["mode"], then), None, nontrivial=True)
+    out.hit("xmove.mode." + h["mode"])
+    out.hit("xmove.then." + then)
+    owners0 = lay_f.owner
+    out.hit("xmove.crosses-file" if owners0.get(x) != owners0.get(q) else "xmove.same-file")
+    done = []
+    for st in script:
+        lm = apply_script(mono, [st])
+        lf = apply_script(frag, [st])
+        done.append(st["op"])
+        after = "+".join(done)
+        out.hit("xmove.step." + st["op"])
+        if lm != lf:
+            out.find(f"xmove|outcome-differs|{st['op']}", f"after {after}: monolithic={lm} fragmented={lf}", case)
+            return
+        om = step_observation(mono, universe, x)
+        of = step_observation(frag, universe, x)
+        # (a) each layout against its own raw XML
+        for lab, o in (("monolithic", om), ("fragmented", of)):
+            if o["ghosts"]:
+                out.find("xmove|by_uuid-answers-for-removed-element", f"{lab}, after {after}: by_uuid() still finds {o['ghosts'][:3]} ({len(o['ghosts'])}) "
+                         f"which no file contains", case)
+            if o["lost"]:
+                out.find("xmove|by_uuid-fails-for-existing-element", f"{lab}, after {after}: by_uuid({o['lost'][0]}) -> {o['by_uuid'][o['lost'][0]]} "
+                         f"although exactly one element carries the id ({len(o['lost'])} such)", case)
+            if o["search_dups"]:
+                out.find("xmove|search-lists-element-twice", f"{lab}, after {after}: search() lists {o['search_dups'][:3]} more than once", case)
+            if o["search_ghosts"]:
+                out.find("xmove|search-lists-removed-element", f"{lab}, after {after}: search() lists {o['search_ghosts'][:3]} which no file contains", case)
+        # (b) fragmented against monolithic
+        for key in ("by_uuid", "search", "x.parent"):
+            if om[key] != of[key]:
+                if isinstance(om[key], dict):
+                    diff = [i for i in om[key] if om[key][i] != of[key].get(i)]
+                    what = f"{len(diff)} ids, e.g. {diff[0]}: monolithic={om[key][diff[0]]} fragmented={of[key].get(diff[0])}"
+                else:
+                    what = f"monolithic={str(om[key])[:150]} fragmented={str(of[key])[:150]}"
+                out.find(f"xmove|{key}-differs", f"after {after}: {what}", case)
+        # (c) can both be saved?
+        sv = []
+        for mdl in (mono, frag):
+            try:
+                mdl.save()
+                sv.append("ok")
+            except Exception as e:  # noqa: BLE001
+                sv.append(f"!{type(e).__name__}: {e}"[:120])
+        if sv[0].split(":")[0] != sv[1].split(":")[0]:
+            out.find("xmove|save-outcome-differs", f"after {after}: save() monolithic={sv[0]} fragmented={sv[1]}", case)
+            return
+        if sv[0] != "ok":
+            return
+        expected = expected_owner(mono, lay_f)
+        owners = files_owner_map(lay_f.root, lay_f.project)
+        wrong = {i: (owners.get(i), f) for i, f in expected.items() if owners.get(i) != f}
+        extra = {i: f for i, f in owners.items() if i not in expected}
+        if wrong:
+            i, (got, want) = next(iter(wrong.items()))
+            out.find("xmove|save|element-not-in-owning-fragment", f"after {after} and save: {len(wrong)} elements in the wrong file, e.g. {i}: in {got}, owner {want}", case)
+        if extra:
+            out.find("xmove|save|unexpected-elements", f"after {after} and save: {len(extra)} elements that the monolithic twin does not have, e.g. {next(iter(extra.items()))}", case)
+    # reload and compare everything
+    expected = expected_owner(mono, lay_f)
+    try:
+        mono2 = capellambse.MelodyModel(lay_m.aird, resources=dict(lay_m.resources))
+        frag2 = capellambse.MelodyModel(lay_f.aird, resources=dict(lay_f.resources))
+    except Exception as e:  # noqa: BLE001
+        out.find(f"xmove|load|raises:{type(e).__name__}", f"reloading after the history raised {type(e).__name__}: {e}"[:240], case)
+        return
+    o2 = Outcome()
+    try:
+        compare_layouts(ctx, o2, spec, mono2, frag2, _with_owner(lay_f, expected), objs_budget=30, with_backrefs=False, tag=tag + "+xmove",
+                        extra_ids=[x, p, q])
+    except Exception as e:  # noqa: BLE001
+        o2.find(f"api|raises:{type(e).__name__}", f"observing the reloaded models raised {type(e).__name__}: {e}"[:240], case)
+    out.evaluations += o2.evaluations
+    out.distinct |= o2.distinct
+    for f in o2.findings:
+        out.find("xmove|after-reload|" + f.signature, f.what, case)
+
+
+
 def _with_owner(lay, owner):
     import dataclasses
 
@@ -662,6 +909,9 @@ def gen_specs(ctx: Ctx) -> list[dict]:
     # of its parent, (b) a fragment around an element that is referenced from outside the fragment
     for model, res in (SMALL[: ctx.pick(2, 4)] + LARGE[: ctx.pick(1, 3)]):
         specs += edit_witness_specs(ctx, model, res, ctx.pick(2, 4))
+    # (c) an existing element is moved into another FILE through the list API and then edited again
+    for model, res in (SMALL[:1] + SMALL[2:3] + LARGE[:1] if not ctx.thorough else SMALL + LARGE[:3]):
+        specs += xmove_specs(ctx, model, res, ctx.pick(5 if (model, res) in SMALL else 3, 10))
     large = LARGE[: ctx.pick(1, 5)]
     for model, res in large:
         for _ in range(ctx.pick(2, 5)):
@@ -762,17 +1012,21 @@ def run_layout(ctx: Ctx, out: Outcome, spec: dict, si: int, model_cases: list | 
             local.find(f"{name}|api|raises:{type(e).__name__}", f"{name}: {type(e).__name__}: {e} (in {at})"[:300],
                        {"kind": "edits" if name != "compare" else "layout", "layout": spec})
 
-    phase("compare", lambda: compare_layouts(ctx, local, spec, mono, frag, lay_f, objs_budget=ctx.pick(60 if small else 25, 400 if small else 60),
-                                             with_backrefs=small, tag=tag))
-    if model_cases is not None:
+    xmove = bool((spec.get("hints") or {}).get("xmove"))
+    if not xmove:  # (layouts built for a cross-file move history go straight to the history; their cut shapes are covered above)
+        phase("compare", lambda: compare_layouts(ctx, local, spec, mono, frag, lay_f, objs_budget=ctx.pick(60 if small else 25, 400 if small else 60),
+                                                 with_backrefs=small, tag=tag))
+    if model_cases is not None and not xmove:
         from props import c06_model
 
         phase("model-tie", lambda: c06_model.collect(ctx, out, spec, mono, frag, lay_f, model_cases, tag))
-    if read_cases is not None:
+    if read_cases is not None and not xmove:
         from props import c06_reads
 
         phase("reads-tie", lambda: c06_reads.collect(ctx, out, spec, mono, frag, lay_f, read_cases, tag))
-    if spec.get("hints") or si % ctx.pick(3, 5) == 0:
+    if (spec.get("hints") or {}).get("xmove"):
+        phase("xmove", lambda: xmove_history(ctx, local, spec, mono, frag, lay_m, lay_f, tag))
+    elif spec.get("hints") or si % ctx.pick(3, 5) == 0:
         phase("edits", lambda: edits_and_save(ctx, local, spec, mono, frag, lay_m, lay_f, tag))
     out.evaluations += local.evaluations
     out.distinct |= local.distinct
@@ -797,7 +1051,8 @@ def run(ctx: Ctx) -> Outcome:
     out.extra["layouts"] = {"total": len(specs), "single_cut": sum(1 for s in specs if len(s["cuts"]) == 1),
                             "multi_cut": sum(1 for s in specs if len(s["cuts"]) > 1),
                             "airdfragment_indirection": sum(1 for s in specs if s.get("airdfragments")),
-                            "relocated_main": sum(1 for s in specs if s.get("main_rel"))}
+                            "relocated_main": sum(1 for s in specs if s.get("main_rel")),
+                            "cross_file_move_histories": sum(1 for s in specs if (s.get("hints") or {}).get("xmove"))}
     model_cases: list | None = [] if os.environ.get("VERIF_NO_MODEL") != "1" and (common.LEAN / "Capella/Driver/Frag.lean").exists() else None
     read_cases: list | None = [] if model_cases is not None and (common.LEAN / "Capella/Driver/RelRead.lean").exists() else None
     for si, spec in enumerate(specs):
@@ -830,7 +1085,7 @@ def _replay(ctx: Ctx, case: dict):
     o = Outcome()
     ctx.rng.seed(0)
     run_layout(ctx, o, spec, 0 if case.get("kind") == "edits" else 1, None)
-    kinds = {"object": "api|", "search": "api|search", "nav": "loader|", "edits": ("edit|", "edits|", "edited|", "save|", "after-edits|"), "layout": ("load|", "compare|", "model-tie|", "reads-tie|")}
+    kinds = {"object": "api|", "search": "api|search", "nav": "loader|", "edits": ("edit|", "edits|", "edited|", "save|", "after-edits|", "xmove|"), "layout": ("load|", "compare|", "model-tie|", "reads-tie|")}
     want = kinds.get(case.get("kind"), "")
     for f in o.findings:
         if f.signature.startswith(want):
